@@ -125,6 +125,17 @@ struct LoopContext {
     /// Iterator register for for-of loops (for iterator close protocol)
     /// When set, break/return/throw should call iterator.return()
     iterator_reg: Option<Register>,
+    /// What kind of statement pushed this context: an unlabelled `break` targets the
+    /// innermost loop or switch, an unlabelled `continue` the innermost loop
+    kind: TargetKind,
+}
+
+/// The kind of statement a break/continue context belongs to
+#[derive(Clone, Copy, PartialEq, Eq)]
+enum TargetKind {
+    Loop,
+    Switch,
+    Label,
 }
 
 impl Compiler {
@@ -297,6 +308,22 @@ impl Compiler {
         self.push_loop_with_iterator(label, None);
     }
 
+    /// Push the break context of a switch statement
+    fn push_switch(&mut self) {
+        self.push_loop(None);
+        if let Some(ctx) = self.loop_stack.last_mut() {
+            ctx.kind = TargetKind::Switch;
+        }
+    }
+
+    /// Push the break context of a labeled statement
+    fn push_label(&mut self, label: JsString) {
+        self.push_loop(Some(label));
+        if let Some(ctx) = self.loop_stack.last_mut() {
+            ctx.kind = TargetKind::Label;
+        }
+    }
+
     /// Push a loop context with an iterator register (for for-of loops)
     fn push_loop_with_iterator(&mut self, label: Option<JsString>, iterator_reg: Option<Register>) {
         let index = self.loop_stack.len();
@@ -311,6 +338,7 @@ impl Compiler {
             try_depth: self.try_depth,
             continue_scope_depth: 0,
             iterator_reg,
+            kind: TargetKind::Loop,
         });
     }
 
@@ -401,8 +429,8 @@ impl Compiler {
             })?
         } else {
             self.loop_stack
-                .len()
-                .checked_sub(1)
+                .iter()
+                .rposition(|ctx| ctx.kind != TargetKind::Label)
                 .ok_or_else(|| JsError::syntax_error_simple("Illegal break statement"))?
         };
 
@@ -450,8 +478,8 @@ impl Compiler {
             })?
         } else {
             self.loop_stack
-                .len()
-                .checked_sub(1)
+                .iter()
+                .rposition(|ctx| ctx.kind == TargetKind::Loop)
                 .ok_or_else(|| JsError::syntax_error_simple("Illegal continue statement"))?
         };
 
